@@ -391,6 +391,17 @@ func runC14(c *kit.Ctx) {
 						return
 					}
 					if callee := kit.StaticCallee(call); callee != nil && callee.Signature.Recv() != nil && strings.HasSuffix(callee.Signature.Recv().Type().String(), "gohbase.scanner") && x != ssa.Instruction(g) {
+						// a getter (no store, no call) cannot close the scanner
+						pure := true
+						kit.Instrs(callee, func(y ssa.Instruction) {
+							switch y.(type) {
+							case *ssa.Store, *ssa.MapUpdate, ssa.CallInstruction, *ssa.Send:
+								pure = false
+							}
+						})
+						if pure {
+							return
+						}
 						if kit.Reaches(li, x) && kit.Reaches(x, g) {
 							stale = true
 						}
@@ -400,7 +411,22 @@ func runC14(c *kit.Ctx) {
 					fresh = true
 				}
 			}
+			// a region scanner that is known to be open implies an open scanner (Close clears the id: R1/R2)
+			for _, f := range kit.FactsAt(g.Block()) {
+				if closed, ok := scannerClosedFact(p, f); ok && !closed {
+					fresh = true
+				}
+			}
 			c.Check(fresh, fn, "renewer-only-while-open", g.Pos(), "the renew goroutine is started on the not-closed edge", "a lease renewer can be started after the scan has finished: Close returns early on a closed scanner and never cancels it, so it keeps sending renew requests (which, without a scanner id, open new server-side scanners)")
+			// ... and only while there is a region scanner to renew: a renewal request without a scanner id is, for the
+			// server, a request to open a scanner on the next region
+			hasScanner := false
+			for _, f := range kit.FactsAt(g.Block()) {
+				if closed, ok := scannerClosedFact(p, f); ok && !closed {
+					hasScanner = true
+				}
+			}
+			c.Check(hasScanner, fn, "renewer-only-with-open-scanner", g.Pos(), "the renew goroutine is started only where a region scanner is known to be open", "the lease renewer is started although no region scanner is open (the response has just exhausted the region): every tick sends renew=true without a scanner id, which opens a scanner on the next region that nobody reads or closes")
 		})
 	}
 	{
